@@ -111,6 +111,19 @@ func runHistory(c *core.Ctx, name string, wl sx.Workload, keep int, seed int64, 
 			r.Quiesce(20 * time.Second)
 			continue
 		}
+		if directedMode == 4 {
+			// two batches without documents arrive back to back while the persister is inside a
+			// round: their root epochs are never persisted, and the purge round that releases them
+			// must still go through
+			if bi == 0 {
+				r.Quiesce(20 * time.Second)
+				r.SetHolds([]sx.HoldRule{{Point: "persist.begin", Until: "IntroSegment", Count: 2, Timeout: 5 * time.Second, Prob: 1, Once: true}})
+			}
+			if bi >= 3 {
+				r.Quiesce(20 * time.Second)
+			}
+			continue
+		}
 		if directedMode == 3 {
 			// a reader pins the state after the second batch for the rest of the history: its
 			// snapshot stays recorded (never eligible) although it is not among the newest ones
@@ -272,6 +285,20 @@ func run(c *core.Ctx) error {
 				{B: 3, W: 1, Puts: []string{"c"}, Dels: []string{"a"}}}}
 		name := fmt.Sprintf("directed-memmerge-overtaken-%d", k)
 		o, err := runHistory(c, name, wl, 8, c.Seed*1000+int64(k), false, 0, false, 1)
+		if err != nil {
+			return err
+		}
+		c.Logf("%s: %d rollback points %v", name, o.Points, o.Seqs)
+		outs = append(outs, o)
+	}
+	// document-less batches back to back while the persister is busy
+	for k := 0; k < c.Pick(2, 4); k++ {
+		bs := func(b int, puts, dels []string) sx.BatchSpec { return sx.BatchSpec{B: b, W: 1, Puts: puts, Dels: dels} }
+		wl := sx.Workload{Writers: 1, Safe: false, KVConfig: map[string]interface{}{"unsafe_batch": true, "numSnapshotsToKeep": 2},
+			Batches: []sx.BatchSpec{bs(1, []string{"a"}, []string{}), bs(2, []string{}, []string{}), bs(3, []string{}, []string{}), bs(4, []string{}, []string{}),
+				bs(5, []string{"b"}, []string{}), bs(6, []string{"c"}, []string{}), bs(7, []string{}, []string{"a"}), bs(8, []string{"d"}, []string{})}}
+		name := fmt.Sprintf("directed-documentless-batches-%d", k)
+		o, err := runHistory(c, name, wl, 2, c.Seed*1000+300+int64(k), true, 0, false, 4)
 		if err != nil {
 			return err
 		}
